@@ -192,6 +192,12 @@ const PAGING_ALIASES: [u16; 6] = [0x7FFD, 0x3FFD, 0x1FFD, 0x00FD, 0x7F3D, 0x5555
 /// byte = A, so only for values < 0x80) / OUTI (port high byte = B after the decrement).
 fn paging_write(e: &mut Emu, idx: usize, v: u8) -> (u16, &'static str) {
     let alias = PAGING_ALIASES[(idx * 5 + v as usize) % PAGING_ALIASES.len()];
+    if v == 0 && idx % 2 == 1 {
+        // the undocumented OUT (C),0 (ED 71) is a paging write of zero like any other
+        e.verif_cpu().regs.set_bc(alias);
+        rig::run_code(e, CODE, &[0xED, 0x71], 1);
+        return (alias, "OUT (C),0");
+    }
     match (idx + v as usize / 3) % 3 {
         1 if v < 0x80 => {
             e.verif_cpu().regs.set_acc(v);
@@ -402,7 +408,7 @@ pub fn run(tier: Tier, seed: u64, replay: Option<String>) -> i32 {
     bfs_128(&ctx, &host, true);
     check_48(&ctx);
     ctx.finish(
-        "BFS from reset over the complete 128K paging state (last accepted 7FFD byte, lock, screen bank, map) with all 256 OUT values per state, each transition replayed on a fresh real Emulator (write executed by the emulated CPU; the instruction form OUT (C),A / OUT (n),A / OUTI and the port alias among 7FFD, 3FFD, 1FFD, 00FD, 7F3D, 5555 rotate with history position and value) in lock step with RefMem; in every distinct state: peek at all 65536 addresses, CPU stores/loads at 4 offsets x 4 windows with an all-banks RAM diff; embedded and host-supplied ROM sets; 48K: all 256 values x 3 port aliases x 3 instruction forms leave map and memory unchanged. distinct = distinct paging states reached",
+        "BFS from reset over the complete 128K paging state (last accepted 7FFD byte, lock, screen bank, map) with all 256 OUT values per state, each transition replayed on a fresh real Emulator (write executed by the emulated CPU; the instruction form OUT (C),A / OUT (n),A / OUTI / OUT (C),0 (for the value 0) and the port alias among 7FFD, 3FFD, 1FFD, 00FD, 7F3D, 5555 rotate with history position and value) in lock step with RefMem; in every distinct state: peek at all 65536 addresses, CPU stores/loads at 4 offsets x 4 windows with an all-banks RAM diff; embedded and host-supplied ROM sets; 48K: all 256 values x 3 port aliases x 3 instruction forms leave map and memory unchanged. distinct = distinct paging states reached",
         true,
         &["marker RAM is written with execute_poke through the 0xC000 window after CPU-executed paging OUTs", "hooks: verif_paging, verif_ram_bank (read-only)"],
     )
